@@ -1,0 +1,9 @@
+//go:build verif
+
+package random
+
+// VerifGenNonceStr is genNonceStr with a caller-supplied draw function, so
+// that the bound it requests can be recorded.
+func VerifGenNonceStr(baseStr string, length int, fn func(int) int) string {
+	return genNonceStr(baseStr, length, fn)
+}
